@@ -173,7 +173,9 @@ class AddStream(HTMLHandlerBase):
         result = {}
         st = models.Stream.get(directory=data['directory'])
         if st:
-            models.db.session.delete(st)
+            # replacing the stream would also remove all of its media files
+            return flask.make_response(
+                f'A stream with directory "{html.escape(data["directory"])}" already exists', 400)
         st = models.Stream(**data)
         st.add(commit=True)
         if not is_ajax():
